@@ -94,6 +94,12 @@ class Impl(object):
             return self.err(e)
 
     def run(self, op):
+        try:
+            return self._run(op)
+        except Exception as e:        # anything the sequence lets escape is the operation's outcome
+            return self.err(e)
+
+    def _run(self, op):
         U = self.U; ircdb = self.ircdb
         k = op[0]
         if k == 'reset':
